@@ -494,10 +494,8 @@ func (db *Backend) ListBucketVersions(
 	var match gofakes3.PrefixMatch
 
 	if page.KeyMarker != "" {
-		if !prefix.Match(page.KeyMarker, &match) {
-			// FIXME: NO idea what S3 would do here.
-			return result, gofakes3.ErrInternal
-		}
+		// The marker only says where the listing resumes; it need not match the
+		// prefix itself (S3 lists the matching keys that follow it).
 		iter.Seek(page.KeyMarker)
 	}
 
